@@ -112,7 +112,7 @@ def eval (blocks : List Block) (c : SymCache) (parts : List String) : SymCache Ã
       | "mode" => range o l fun ch _ => let m : Out := .int (modeHist (histChunks ch)); (m, m)
       | "devs" => str o fun s =>
           match ratArg l with
-          | some m => (ofOptRat (Spec.deviation s m), ofOptRat (deviationStr signedConv s m))
+          | some m => (ofOptRat (Spec.deviation s m), ofOptRat (deviationStr unsignedConv s m))
           | none => (.bad, .bad)
       | "min" => match o.toInt?, l.toInt? with
           | some i, some j => same (.int (mathMin i j)) | _, _ => same .bad
@@ -134,10 +134,10 @@ def eval (blocks : List Block) (c : SymCache) (parts : List String) : SymCache Ã
     | "sha256s" => str x fun s => (.dig .sha256 s, .dig .sha256 s)
     | "crc32s" => str x fun s => (u32 (Spec.bitwiseCrc s), u32 (tableCrc s))
     | "ck32s" => str x fun s => (.int (Spec.checksum32 s), u32 (checksum32 s))
-    | "means" => str x fun s => (ofOptRat (Spec.mean s), ofOptRat (meanStr signedConv s))
+    | "means" => str x fun s => (ofOptRat (Spec.mean s), ofOptRat (meanStr unsignedConv s))
     | "ents" => str x fun s => (.flt (entropyF (Spec.count s) s.length), .flt (entropyF (histOf s) s.length))
-    | "scs" => str x fun s => (.rat (Spec.serialCorrelation s), .rat (sccStr signedConv s))
-    | "mcs" => str x fun s => (ofOptRat (Spec.monteCarloPi s), ofOptRat (mcStr sextConv s))
+    | "scs" => str x fun s => (.rat (Spec.serialCorrelation s), .rat (sccStr unsignedConv s))
+    | "mcs" => str x fun s => (ofOptRat (Spec.monteCarloPi s), ofOptRat (mcStr unsignedConv s))
     | "toint" => str x fun s => let r := ofOptInt (stringToInt s); (r, r)
     | "len" => str x fun s => (.int (stringLength s), .int (stringLength s))
     | "abs" => match x.toInt? with
